@@ -56,6 +56,11 @@ type Term struct {
 	name    string
 	id      int
 	defined bool // a define-fun / declare-const has been sent to the solver
+	fvDone  bool
+	fvN     int8  // number of distinct free variables, capped at 2
+	fv      *Term // the variable when fvN == 1
+	evEpoch uint32
+	evVal   uint64
 }
 
 type termKey struct {
@@ -798,6 +803,218 @@ func (t *Term) String() string {
 	return fmt.Sprintf("(%s %s %s)", opNames[t.op], t.a, t.b)
 }
 
+// evalBin evaluates a binary bit-vector / comparison operator on constants.
+func evalBin(op Op, w uint8, x, y uint64) uint64 {
+	m := mask(w)
+	var r uint64
+	switch op {
+	case OpAdd:
+		r = x + y
+	case OpSub:
+		r = x - y
+	case OpMul:
+		r = x * y
+	case OpUDiv:
+		if y == 0 {
+			r = m
+		} else {
+			r = x / y
+		}
+	case OpURem:
+		if y == 0 {
+			r = x
+		} else {
+			r = x % y
+		}
+	case OpSDiv:
+		sx, sy := sext64(x, w), sext64(y, w)
+		if sy == 0 {
+			if sx < 0 {
+				r = 1
+			} else {
+				r = m
+			}
+		} else if sy == -1 {
+			r = uint64(-sx)
+		} else {
+			r = uint64(sx / sy)
+		}
+	case OpSRem:
+		sx, sy := sext64(x, w), sext64(y, w)
+		if sy == 0 {
+			r = x
+		} else if sy == -1 {
+			r = 0
+		} else {
+			r = uint64(sx % sy)
+		}
+	case OpBAnd:
+		r = x & y
+	case OpBOr:
+		r = x | y
+	case OpBXor:
+		r = x ^ y
+	case OpShl:
+		if y >= uint64(w) {
+			r = 0
+		} else {
+			r = x << y
+		}
+	case OpLShr:
+		if y >= uint64(w) {
+			r = 0
+		} else {
+			r = x >> y
+		}
+	case OpAShr:
+		sx := sext64(x, w)
+		if y >= uint64(w) {
+			if sx < 0 {
+				r = m
+			} else {
+				r = 0
+			}
+		} else {
+			r = uint64(sx >> y)
+		}
+	case OpUlt:
+		if x < y {
+			return 1
+		}
+		return 0
+	case OpUle:
+		if x <= y {
+			return 1
+		}
+		return 0
+	case OpSlt:
+		if sext64(x, w) < sext64(y, w) {
+			return 1
+		}
+		return 0
+	case OpSle:
+		if sext64(x, w) <= sext64(y, w) {
+			return 1
+		}
+		return 0
+	}
+	return r & m
+}
+
+// freeVar returns (the variable, 1) if t depends on exactly one variable,
+// (nil, 0) if it is ground and (nil, 2) if it depends on several (or on an
+// uninterpreted function).
+func (t *Term) freeVar() (*Term, int) {
+	if t.fvDone {
+		return t.fv, int(t.fvN)
+	}
+	t.fvDone = true
+	switch t.op {
+	case OpConst:
+		t.fvN = 0
+	case OpVar:
+		t.fvN, t.fv = 1, t
+	case OpUF:
+		t.fvN = 2
+	default:
+		var v *Term
+		n := 0
+		for _, x := range [3]*Term{t.a, t.b, t.c} {
+			if x == nil {
+				continue
+			}
+			xv, xn := x.freeVar()
+			switch {
+			case xn >= 2:
+				n = 2
+			case xn == 1 && n < 2:
+				if v == nil {
+					v, n = xv, 1
+				} else if v != xv {
+					n = 2
+				}
+			}
+		}
+		t.fvN = int8(n)
+		if n == 1 {
+			t.fv = v
+		}
+	}
+	return t.fv, int(t.fvN)
+}
+
+// collectVars appends the distinct variables of t to out.
+func (t *Term) collectVars(seen map[int]bool, out *[]*Term) {
+	if t == nil || seen[t.id] {
+		return
+	}
+	seen[t.id] = true
+	if t.op == OpVar {
+		*out = append(*out, t)
+		return
+	}
+	if _, n := t.freeVar(); n == 0 {
+		return
+	}
+	t.a.collectVars(seen, out)
+	t.b.collectVars(seen, out)
+	t.c.collectVars(seen, out)
+}
+
+// eval1 evaluates a term that depends on the single variable x under x = val.
+// epoch must be fresh for every (x, val) pair.
+func (tt *TermTable) eval1(t *Term, val uint64, epoch uint32) uint64 {
+	switch t.op {
+	case OpConst:
+		return t.k
+	case OpVar:
+		return val & maskb(t.w)
+	}
+	if t.evEpoch == epoch {
+		return t.evVal
+	}
+	var r uint64
+	switch t.op {
+	case OpNot:
+		r = 1 - tt.eval1(t.a, val, epoch)
+	case OpAnd:
+		r = tt.eval1(t.a, val, epoch)
+		if r != 0 {
+			r = tt.eval1(t.b, val, epoch)
+		}
+	case OpOr:
+		r = tt.eval1(t.a, val, epoch)
+		if r == 0 {
+			r = tt.eval1(t.b, val, epoch)
+		}
+	case OpIte:
+		if tt.eval1(t.a, val, epoch) != 0 {
+			r = tt.eval1(t.b, val, epoch)
+		} else {
+			r = tt.eval1(t.c, val, epoch)
+		}
+	case OpEq:
+		if tt.eval1(t.a, val, epoch) == tt.eval1(t.b, val, epoch) {
+			r = 1
+		}
+	case OpZExt:
+		r = tt.eval1(t.a, val, epoch)
+	case OpSExt:
+		r = uint64(sext64(tt.eval1(t.a, val, epoch), t.a.w)) & mask(t.w)
+	case OpExtract:
+		r = (tt.eval1(t.a, val, epoch) >> (t.k & 0xff)) & mask(t.w)
+	case OpNeg:
+		r = (-tt.eval1(t.a, val, epoch)) & mask(t.w)
+	case OpBNot:
+		r = (^tt.eval1(t.a, val, epoch)) & mask(t.w)
+	default:
+		r = evalBin(t.op, t.a.w, tt.eval1(t.a, val, epoch), tt.eval1(t.b, val, epoch))
+	}
+	t.evEpoch = epoch
+	t.evVal = r
+	return r
+}
+
 // ---- model evaluation ----
 
 // Model maps variable term id -> value. Missing variables evaluate to 0.
@@ -847,17 +1064,7 @@ func (tt *TermTable) Eval(t *Term, m Model, memo map[int]uint64) uint64 {
 	case OpBNot:
 		r = (^ev(t.a)) & mask(t.w)
 	default:
-		// binary: fold through constants
-		a := tt.BV(int(t.a.w), ev(t.a))
-		b := tt.BV(int(t.b.w), ev(t.b))
-		var c *Term
-		switch t.op {
-		case OpUlt, OpUle, OpSlt, OpSle:
-			c = tt.cmp(t.op, a, b)
-		default:
-			c = tt.bin(t.op, a, b)
-		}
-		r = c.k
+		r = evalBin(t.op, t.a.w, ev(t.a), ev(t.b))
 	}
 	memo[t.id] = r
 	return r
